@@ -24,6 +24,7 @@ type vHist struct {
 	bucket  string
 	status  string // "N", "E", "S"
 	vers    []verRef
+	maxID   int
 	d5Keys  map[string]bool // keys hit by a write while Suspended after having had Enabled-born versions
 	bornAny map[string]bool
 	trace   []string
@@ -93,6 +94,28 @@ func (h *vHist) judge(line, obs, finger, key string) {
 	h.trace = append(h.trace, line)
 }
 
+// fresh: while Enabled every upload and every delete marker gets an id above every id issued
+// before in this history (statement: "a fresh, unique version ID")
+func (h *vHist) fresh(obs, what string) {
+	if h.status != "E" || !strings.Contains(obs, "vid=") {
+		return
+	}
+	v := obs[strings.Index(obs, "vid=")+4:]
+	var n int
+	if _, err := fmt.Sscan(v, &n); err != nil {
+		return
+	}
+	h.c.R.Evaluations++
+	if n <= h.maxID {
+		h.c.mismatch(Mismatch{Kind: "spec", Backend: "mem", Case: append([]string{}, h.r.Lines...), Impl: fmt.Sprintf("%s returned version id %d, ids up to %d were issued before", what, n, h.maxID),
+			Spec: "a fresh version id", Finger: h.prop + ":version-id-not-fresh"})
+		h.dead = true
+	}
+	if n > h.maxID {
+		h.maxID = n
+	}
+}
+
 func (h *vHist) noteWrite(key string) {
 	if h.status == "S" && h.bornAny[key] {
 		h.d5Keys[key] = true
@@ -102,6 +125,7 @@ func (h *vHist) noteWrite(key string) {
 func (h *vHist) put(key string, body []byte) {
 	h.noteWrite(key)
 	l, o := h.r.Put(h.bucket, key, nil, body)
+	h.fresh(o, "put")
 	h.judge(l, o, "put", key)
 	// remember the version (id from the response when Enabled; otherwise unknown to the client)
 	if strings.HasPrefix(o, "stored ") && strings.Contains(o, "vid=") {
@@ -128,6 +152,9 @@ func (h *vHist) rawOf(counter string) string {
 func (h *vHist) del(key string) {
 	h.noteWrite(key)
 	l, o := h.r.Del(h.bucket, key)
+	if strings.Contains(o, "marker=1") {
+		h.fresh(o, "delete")
+	}
 	h.judge(l, o, "delete", key)
 	if strings.Contains(o, "marker=1") {
 		v := o[strings.Index(o, "vid=")+4:]
@@ -394,7 +421,8 @@ func (h *vHist) listv(q VerListReq, finger string) VerListObs {
 	}
 	if lo.Obs != model {
 		h.c.mismatch(Mismatch{Kind: "model", Backend: "mem", Case: cs, Impl: lo.Obs, Model: model, Spec: spec, Finger: fp})
-	} else if lo.OK && !q.HasDelim && q.KeyMarker == "" && q.ClampedMaxKeys >= 1000 && strings.HasPrefix(spec, "specversions") {
+	}
+	if lo.OK && !q.HasDelim && q.KeyMarker == "" && q.ClampedMaxKeys >= 1000 && strings.HasPrefix(spec, "specversions") {
 		// unpaginated: exactly the remaining versions and markers, one latest per key, the right one
 		got := sortedVerEntries(lo)
 		want := spec
@@ -474,6 +502,11 @@ func runC13(c *Ctx) {
 				h.multiDel(k, keys[c.Rng.Intn(len(keys))])
 				ops = append(ops, "multi "+k)
 			}
+		}
+		// listings are also taken while versioning is suspended (ids stay as issued)
+		if mode != 0 && c.Rng.Intn(3) == 0 {
+			h.setver("S")
+			ops = append(ops, "suspend")
 		}
 		// unpaginated
 		lo := h.listv(VerListReq{ClampedMaxKeys: 1000}, "list")
